@@ -100,6 +100,7 @@ type lockProbe struct {
 	inner ecs.Listener
 	f     func()
 	fired bool
+	subs  event.Subscription // the probe's own subscription (generated); 0 = EntityRemoved
 }
 
 func (l *lockProbe) Notify(w *ecs.World, e ecs.EntityEvent) {
@@ -112,10 +113,14 @@ func (l *lockProbe) Notify(w *ecs.World, e ecs.EntityEvent) {
 	}
 }
 func (l *lockProbe) Subscriptions() event.Subscription {
-	if l.inner != nil {
-		return l.inner.Subscriptions() | event.EntityRemoved
+	own := l.subs
+	if own == 0 {
+		own = event.EntityRemoved
 	}
-	return event.EntityRemoved
+	if l.inner != nil {
+		return l.inner.Subscriptions() | own
+	}
+	return own
 }
 func (l *lockProbe) Components() *ecs.Mask { return nil }
 
@@ -421,7 +426,10 @@ func (s *Sim) doLockDuring(o *Op) {
 	if inner.K == OpRemoveEnt || inner.K == OpRemoveEnts {
 		for _, b := range s.Worlds() {
 			b := b
-			lp := &lockProbe{}
+			// the probe subscribes to generated event types: a removal is also delivered (and the
+			// world locked meanwhile) to a listener interested only in what the removal implies
+			// (components removed, relation / target changed)
+			lp := &lockProbe{subs: event.Subscription(o.V & 63)}
 			if b.Rec != nil {
 				lp.inner = b.Rec
 			}
@@ -592,6 +600,12 @@ func (g *Gen) DrawLockOp(t *rapid.T, unique int) Op {
 		}
 		op.K = OpLockDuring
 		op.Sub2 = []Op{inner}
+		if inner.K == OpRemoveEnt || inner.K == OpRemoveEnts {
+			// subscription of the probing listener: EntityRemoved, or any other generated set
+			if rapid.Bool().Draw(t, "probeAll") {
+				op.V = rapid.IntRange(1, 63).Draw(t, "probeSubs")
+			}
+		}
 	default:
 		op.K = OpLockEpisode
 		op.N = rapid.SampledFrom([]int{1, 1, 2, 2, 3, 4, 6}).Draw(t, "depth")
